@@ -114,7 +114,15 @@ OutClauses ==
          \cup Flag(\A a, b \in LabelsOf(tr) \cap LabelsOf(dv) :
                       ~(MeanLt(tr, a, b) /\ MeanLt(dv, b, a)), "C02_dev_rank_inversion"))
 
+(* C03: the base modalities of a categorical feature are ordered by training target rate *)
+BaseOrderClauses ==
+  IF C.fkind # "categ" THEN {}
+  ELSE Flag(\A i \in 1..(Tab.k - 1) :
+               (RateDefined(Tab, "tr", {i}) /\ RateDefined(Tab, "tr", {i + 1})) => ~RateLt(Tab, "tr", {i + 1}, {i}),
+            "C03_categorical_not_in_target_rate_order")
+
 ResultClauses ==
+  BaseOrderClauses \cup
   (IF C.kept
    THEN Flag(C01Opt(Tab, Cfg, Final), "C01_opt")
         \cup Flag(\A i \in DOMAIN Final : Contiguous(Final[i] \ {0}), "C03_carve_contiguous")
